@@ -1,6 +1,7 @@
 package main
 
 import (
+	"sort"
 	"fmt"
 	"os"
 
@@ -114,7 +115,13 @@ func genC18(e *emitter, tier string) {
 		Inits: []InitJ{{Name: "w", T: smallT("f32", []int{2, 2}, 1), Raw: true}, {Name: "v", T: idxT("i64", []int{3}, []int{1, 2, 3})}, {Name: "u", T: smallT("f64", []int{1, 2}, 2)}},
 		Nodes: []NodeJ{{Op: "Add", Ins: []string{"x", "w"}, Outs: []string{"y"}}}, Outputs: []string{"y"}}
 	base["generated"] = marshalGraph(gsmall)
-	for name, b := range base {
+	baseNames := make([]string, 0, len(base))
+	for name := range base {
+		baseNames = append(baseNames, name)
+	}
+	sort.Strings(baseNames) // one PRNG, one order: a stream replays exactly
+	for _, name := range baseNames {
+		b := base[name]
 		offs := 60
 		if tier == "thorough" {
 			offs = 2000
